@@ -192,7 +192,8 @@ def run_corpus(ck, stream, n, per_bin=20, allow_regex=True, forms=None, default_
         cases = gen_cases(rng, n, gen_stream or stream, allow_regex=allow_regex, forms=forms)
     import hashlib
     digest = hashlib.sha256("\n".join(c.decls_text + "|" + c.type_text + "|" + c.value_text + "|" + c.text + "|" + getattr(c, "setup", "") + getattr(c, "post", "") for c in cases).encode()).hexdigest()[:16]
-    cpath = os.path.join(cdir, "%s-%s-%s.json" % (repo_hash(), stream, digest))   # impl results only; the spec side is recomputed
+    # impl results only (the spec side is recomputed); everything that changes how the programs are BUILT is part of the key
+    cpath = os.path.join(cdir, "%s-%s-%s-%s-%s-%s.json" % (repo_hash(), stream, digest, "df" if default_features else "nodf", edition, "rel" if release else "dev"))
     expected_from_lean(ck, cases)
     if use_cache and os.path.exists(cpath):
         got = json.load(open(cpath))
